@@ -238,7 +238,7 @@ def c_distinct(inp):
 
 
 @S.item("solve.default_setting", site="graphiq.solvers.alternate_target_solver:AlternateTargetSolverSetting.__init__",
-        bound="fixed list, seed-independent (touches known finding KF-C10-2): default settings (AlternateTargetSolverSetting() and solver_setting=None) x {path P4, star K1,3, cycle C4, complete K4, path P5, cycle C5} x seed 1",
+        bound="fixed list: default settings (AlternateTargetSolverSetting() and solver_setting=None) x {path P4, star K1,3, cycle C4, complete K4, path P5, cycle C5} x seed 1",
         exhaustive=True, clause="... every accepted solver setting, including the default one (all clauses judged on the result)")
 def c_default(inp):
     r = _MEMO.get(jkey(inp)) or _evaluate(inp)
